@@ -10,7 +10,7 @@ RULE = ('cases = (Y, X) int32 code vectors: every pair of set partitions of n ro
         'n from 1 to 10^3 (quick) / 2*10^4 high-cardinality and 10^6 low-cardinality (thorough); a second pass runs under '
         'NUMBA_BOUNDSCHECK=1. distinct = (n, multiset of joint counts with marginals); non-trivial = both sides '
         'non-constant and the model MI further than 10*tol from 0 and from both entropies.')
-REQUIRED = {'plugin-mi': 100, 'symmetry': 100, 'bounds': 100, 'self-entropy': 20, 'constant-zero': 5}
+REQUIRED = {'inputs-untouched': 100, 'plugin-mi': 100, 'symmetry': 100, 'bounds': 100, 'self-entropy': 20, 'constant-zero': 5}
 EXHAUSTIVE_NOTE = {'quick': 'all pairs of set partitions of n rows, n = 1..6 (Bell(n)^2 pairs each)',
                    'thorough': 'all pairs of set partitions of n rows, n = 1..7'}
 ASSUMPTIONS = ['float32 rounding tolerance 2e-5 + 2e-6*|expected| (per-stratum float32 terms, float64 accumulation)',
@@ -58,9 +58,13 @@ def observe_pair(sh, est, Y, X, cls, sample=False):
     mi = oracles.plugin_mi(Y, X)
     hx, hy = oracles.entropy(X), oracles.entropy(Y)
     wit = lambda **kw: dict(kw, n=n, cls=cls, Y=Y[:300], X=X[:300], model_mi=mi, HX=hx, HY=hy)  # noqa: E731
+    Y0, X0 = Y.copy(), X.copy()
     ok, s_yx = sh.call('plugin-mi', 'estimator', est, Y, X)
     if not ok:
         return
+    # the caller's vectors are inputs: a label vector is scored against many features in a row
+    sh.check('inputs-untouched', bool(np.array_equal(Y, Y0)) and bool(np.array_equal(X, X0)), 'estimator-modified-its-input-arrays',
+             lambda: {'n': n, 'cls': cls, 'Y_before': Y0[:40], 'Y_after': Y[:40], 'X_before': X0[:40], 'X_after': X[:40]})
     ok2, s_xy = sh.call('plugin-mi', 'estimator', est, X, Y)
     if not ok2:
         return
